@@ -4,11 +4,21 @@ import json, os, re, subprocess, sys, time, hashlib, shutil, random
 from concurrent.futures import ThreadPoolExecutor
 
 VERIF = os.path.dirname(os.path.dirname(os.path.abspath(__file__)))
-REPO = "/repo"
+# The checks always run against /repo. VERIF_REPO is only used by tools/seed_eval.py to point a
+# check at a scratch worktree (a seeded change) without touching /repo; it then uses a private
+# copy of the harness crate and private build directories.
+REPO = os.environ.get("VERIF_REPO", "/repo")
 COQ = os.path.join(VERIF, "coq")
 CACHE = os.path.join(VERIF, ".cache")
-TARGET = os.path.join(VERIF, "target")
+if REPO == "/repo":
+    TARGET = os.path.join(VERIF, "target")
+    HARNESS_DIR = os.path.join(VERIF, "harness")
+else:
+    _tag = hashlib.sha256(REPO.encode()).hexdigest()[:10]
+    TARGET = os.path.join(CACHE, "alt-" + _tag, "target")
+    HARNESS_DIR = os.path.join(CACHE, "alt-" + _tag, "harness")
 HARNESS_BIN = os.path.join(TARGET, "debug", "tkh")
+OUT_DIR = VERIF if REPO == "/repo" else os.path.dirname(TARGET)      # evidence/ and replays/ live here
 NPROC = 16
 COQ_DIRS = ["model", "spec", "proofs", "props", "corr"]
 
@@ -248,12 +258,21 @@ def g_dec(j):
 def harness_build():
     os.makedirs(CACHE, exist_ok=True)
     os.makedirs(os.path.join(CACHE, "tmp"), exist_ok=True)
+    if REPO != "/repo":
+        # private copy of the harness crate with its path dependencies redirected
+        src = os.path.join(VERIF, "harness")
+        shutil.rmtree(HARNESS_DIR, ignore_errors=True)
+        shutil.copytree(src, HARNESS_DIR, ignore=shutil.ignore_patterns("Cargo.lock"))
+        ct = open(os.path.join(HARNESS_DIR, "Cargo.toml")).read().replace('"/repo/', '"%s/' % REPO)
+        open(os.path.join(HARNESS_DIR, "Cargo.toml"), "w").write(ct)
+        cc = open(os.path.join(HARNESS_DIR, ".cargo", "config.toml")).read().replace("/verif/target", TARGET)
+        open(os.path.join(HARNESS_DIR, ".cargo", "config.toml"), "w").write(cc)
     lock_src = os.path.join(REPO, "Cargo.lock")
-    lock_dst = os.path.join(VERIF, "harness", "Cargo.lock")
+    lock_dst = os.path.join(HARNESS_DIR, "Cargo.lock")
     if not os.path.exists(lock_dst) or open(lock_src).read() != open(lock_dst).read():
         shutil.copyfile(lock_src, lock_dst)
     t0 = time.time()
-    rc, o, e = sh(["cargo", "build", "--offline"], cwd=os.path.join(VERIF, "harness"), timeout=1800)
+    rc, o, e = sh(["cargo", "build", "--offline"], cwd=HARNESS_DIR, timeout=1800)
     if rc != 0:
         raise Infra("harness build failed (does /repo compile?):\n" + e[-3000:])
     return time.time() - t0
@@ -347,8 +366,8 @@ class Run:
             self.known.append(text)
 
     def finish(self, proof_info, level="proof"):
-        os.makedirs(os.path.join(VERIF, "evidence"), exist_ok=True)
-        os.makedirs(os.path.join(VERIF, "replays"), exist_ok=True)
+        os.makedirs(os.path.join(OUT_DIR, "evidence"), exist_ok=True)
+        os.makedirs(os.path.join(OUT_DIR, "replays"), exist_ok=True)
         cov = dict(self.cov)
         cov["samples"] = cov["samples"][:5] or ["(no case generated)"]
         nthm = len(proof_info.get("theorems", []))
@@ -371,17 +390,17 @@ class Run:
             "wall_s": round(time.time() - self.t0, 2), "violations": len(self.violations),
             "known_findings": self.known,
         }
-        with open(os.path.join(VERIF, "evidence", self.prop + ".json"), "w") as f:
+        with open(os.path.join(OUT_DIR, "evidence", self.prop + ".json"), "w") as f:
             json.dump(ev, f, indent=1, ensure_ascii=False)
         import glob
-        for old in glob.glob(os.path.join(VERIF, "replays", "%s-%s-%d-*.json" % (self.prop, self.tier, self.seed))):
+        for old in glob.glob(os.path.join(OUT_DIR, "replays", "%s-%s-%d-*.json" % (self.prop, self.tier, self.seed))):
             os.remove(old)
         for k in self.known:
             print("KNOWN-FINDING: property=%s %s" % (self.prop, k))
         if self.violations:
             # one VIOLATION line per distinct violation (first one decides the replay naming)
             for idx, (what, replay, found) in enumerate(self.violations[:5]):
-                path = os.path.join(VERIF, "replays", "%s-%s-%d-%d.json" % (self.prop, self.tier, self.seed, idx))
+                path = os.path.join(OUT_DIR, "replays", "%s-%s-%d-%d.json" % (self.prop, self.tier, self.seed, idx))
                 with open(path, "w") as f:
                     json.dump({"property": self.prop, "what": what, "replay": replay}, f, indent=1, ensure_ascii=False)
                 print("VIOLATION property=%s replay=%s%s" % (self.prop, path, "" if found else " no-failing-input-found"))
